@@ -472,6 +472,12 @@ class FunctionVerifier:
                 ri = self.index_term(SV(("Seq", "Int"), (rows, None)), r, st, e, spec)
                 ci = self.index_term(SV(("Seq", "Int"), (cols, None)), c, st, e, spec)
                 return SV(base.sort[1], f"(select (select {arr} {ri}) {ci})")
+            if spec and not isinstance(e.slice, (ast.Tuple, ast.Slice)):
+                # a row of a 2-D array, as a sequence (specifications only)
+                r = self.ev(e.slice, st, spec)
+                rows, cols, arr = base.t
+                ri = self.index_term(SV(("Seq", "Int"), (rows, None)), r, st, e, spec)
+                return SV(("Seq", base.sort[1]), (cols, f"(select {arr} {ri})"))
             raise Unsupported("row access of a 2-D array")
         if base.sort == ("Tuple",):
             idx = self.ev(e.slice, st, spec)
@@ -578,6 +584,14 @@ class FunctionVerifier:
             if not spec:
                 self.oblige(st, f"(>= {n_.t} 0)", "non-negative-array-size", e)
             return SV(("Seq", "Int"), (n_.t, self.ctx.fresh(("Seq", "Int"), "arr")))
+        if name == "np.arange" and len(args) == 1:
+            n_ = self.ev(args[0], st, spec)
+            if not spec:
+                self.oblige(st, f"(>= {n_.t} 0)", "non-negative-shape", e)
+            arr = self.ctx.fresh(("Seq", "Int"), "arange")
+            q = f"a_q{next(self.ctx.counter)}"
+            st.assume(f"(forall (({q} Int)) (! (=> (and (<= 0 {q}) (< {q} {n_.t})) (= (select {arr} {q}) {q})) :pattern ((select {arr} {q}))))")
+            return SV(("Seq", "Int"), (n_.t, arr))
         if name in ("np.empty", "np.zeros") and args:
             shp = self.ev(args[0], st, spec)
             zero = name == "np.zeros"
